@@ -187,6 +187,10 @@ fn plan_inner(prop: &str, tier: &str) -> Option<Plan> {
                 if matches!(prop, "C04" | "C05" | "C06" | "C07" | "C08" | "C09" | "C10") {
                     let (nmax, sh) = if tier == "quick" { (if matches!(prop, "C06" | "C07" | "C10") { 17 } else { 20 }, 8) } else { (40, 16) };
                     jobs.extend(sharded(prop, "gsweep", f, tier, json!({"n": 0, "max_l": 0, "large": nmax}), sh));
+                    // very deep corridors (1024 .. 4096 nodes; thorough up to 16384), own u32-keyed types
+                    if prop != "C08" {
+                        jobs.extend(sharded(prop, "deepchain", f, tier, json!({}), 4));
+                    }
                     // every small shape behind a corridor / fan of m discovered nodes
                     let (pm, pl, psh): (Vec<usize>, usize, usize) = if tier == "quick" { (vec![15, 16, 17, 31, 32, 33], 2, 8) } else { (vec![7, 8, 9, 15, 16, 17, 31, 32, 33, 47, 48, 49], 3, 32) };
                     jobs.extend(sharded(prop, "gsweep", f, tier, json!({"n": 3, "max_l": pl, "prefix": pm}), psh));
@@ -529,6 +533,7 @@ pub fn work(job: &Job, out: &mut Out) {
         "gsweep" => crate::with_flavor!(job.flavour.as_str(), F => gsweep::sweep::<F>(job, out)),
         "csweep" => crate::with_flavor!(job.flavour.as_str(), F => csweep::sweep::<F>(job, out)),
         "confine" => crate::confine::sweep(job, out),
+        "deepchain" => crate::deepchain::sweep(job, out),
         "sched" => crate::with_sync_flavor!(job.flavour.as_str(), F => sched::sweep::<F>(job, out)),
         "docsweep" => docsweep::sweep(job, out),
         "loopx" => crate::with_flavor!(job.flavour.as_str(), F => loopx::sweep::<F>(job, out)),
@@ -556,6 +561,7 @@ pub fn replay(property: &str, engine: &str, flavour: &str, case: &Value) -> Vec<
         "gsweep" => crate::with_flavor!(flavour, F => gsweep::replay::<F>(property, case)),
         "csweep" => crate::with_flavor!(flavour, F => csweep::replay::<F>(property, case)),
         "confine" => crate::confine::replay(property, case),
+        "deepchain" => crate::deepchain::replay(property, case),
         "sched" => crate::with_sync_flavor!(flavour, F => sched::replay::<F>(property, case)),
         "docsweep" => docsweep::replay(property, case),
         "loopx" => crate::with_flavor!(flavour, F => loopx::replay::<F>(property, case)),
